@@ -389,7 +389,9 @@ static void cmdTransform(const Msg& q, Msg& r) {
         SaxErr eh; parser.setErrorHandler(&eh);
         parser.setDoNamespaces(true);
         parser.setCreateEntityReferenceNodes(false);
-        parser.parse(mb);
+        // this parse is the application's own (the library only wraps the finished DOM): what it throws is not the library's doing
+        try { parser.parse(mb); }
+        catch (const xercesc::DOMException& e) { r["src_error"] = std::string("DOMException: ") + u8(XalanDOMString(e.getMessage())); return; }
         XercesParserLiaison lia;
         XercesDOMSupport sup(lia);
         XalanDOMString uri(xs(get(q, "xmlsysid")));
